@@ -122,7 +122,15 @@ def execute(program, ctx):
     P = ts.build(program)
     x64 = program["float"] == "x64"
 
+    NUMERIC = {"loss-history", "term-history", "final-params", "tracked-history", "carry-params"}
+    cond = {}
+
     def fail(inv, what, details, step=None):
+        if inv in NUMERIC or (inv == "opt-state" and what == "moments"):
+            # a numeric mismatch only counts when the reference itself is determined to within the tolerance
+            c = cond.get("args")
+            if c is not None and ts.ill_conditioned(*c, observed=cond.get("observed")):
+                raise ts.Unsupported(f"ill-conditioned training (reference not determined to within the tolerance): {inv}")
         raise Violation(ID, inv, f"{ID}.{inv}/{program['eq']}/{program['driver']}/{what}", details, step)
 
     params, data, pdata, odata, opt_state = P.params, P.data, P.param_data, P.obs_data, None
@@ -162,12 +170,17 @@ def execute(program, ctx):
                   "cursor_fields": [str(np.asarray(x))[:60] for x in ts.gen_state(o_data)[:6]]}, si)
         w, R = chosen
         w_global = w
+        cond["args"] = (P, n, r_params, r_data, r_pdata, r_odata, r_opt, w, R)
         ctx.count(f"probe.warmup_{w}")
         if R.stop_reason != "max-iter":
             raise ts.Unsupported("reference produced NaN parameters in a fault-free program")
         # [1] total loss history
         ref_loss = np.array([float(x) for x in R.loss])
         got = np.asarray(o_loss)
+        if got.shape == ref_loss.shape:
+            dl = np.abs(np.asarray(got, dtype=np.float64) - ref_loss)
+            dl = dl[~np.isnan(dl)]
+            cond["observed"] = (ts.maxdiff(o_params, R.params), float(dl.max()) if dl.size else 0.0)
         if got.shape != (n,):
             fail("history-shape", "loss", {"got": list(got.shape), "n": n}, si)
         if not ts.close(got, ref_loss):
